@@ -526,7 +526,7 @@ def run(ctx):
                 continue
             n9 += 1
             facts_ = guard_facts(fa9, nid_)
-            fresh_ = any((canon(e_) in ("resumed",) and t_ is False) or (canon(e_) in ("self.initialised", "self._initialised") and t_ is False) or (t_ is True and canon(e_) in ("not resumed or not self.initialised", "not self.initialised or not resumed", "not (resumed and self.initialised)", "not (self.initialised and resumed)")) for e_, t_ in facts_)
+            fresh_ = _excludes_resume_path(facts_) or any((canon(e_) in ("resumed",) and t_ is False) or (canon(e_) in ("self.initialised", "self._initialised") and t_ is False) or (t_ is True and canon(e_) in ("not resumed or not self.initialised", "not self.initialised or not resumed", "not (resumed and self.initialised)", "not (self.initialised and resumed)")) for e_, t_ in facts_)
             ok9 = fresh_ or _state_saved_around(ini9, fa9.stmt(nid_))
             ctx.ob("R-PICKLE", "C12.9", ini9, "a call that can change the state of the reparameterisations runs only when the proposal is initialised afresh (not on the resume path), or inside a save / restore of that state", ok9, f"`{src(c_)[:60]}` under {[(src(e_)[:40], t_) for e_, t_ in facts_]}", node=c_)
     ctx.require(n9 >= 2, f"only {n9} state-changing calls found in FlowProposal.initialise (set_rescaling / verify_rescaling expected)")
@@ -551,6 +551,30 @@ def _enclosing_stmt(fnode, node):
                     if best is None or (s.lineno >= best.lineno):
                         best = s
     return best
+
+
+def _excludes_resume_path(facts):
+    """Do the branch facts exclude `resumed and self.initialised`?  Each fact is evaluated as a Boolean expression over the
+    two atoms with both set to True; a fact that mentions anything else is taken as satisfiable."""
+    def ev(e):
+        t = canon(e)
+        if t in ("resumed", "self.initialised", "self._initialised"):
+            return True
+        if isinstance(e, ast.UnaryOp) and isinstance(e.op, ast.Not):
+            v = ev(e.operand)
+            return None if v is None else (not v)
+        if isinstance(e, ast.BoolOp):
+            vs = [ev(x) for x in e.values]
+            if isinstance(e.op, ast.And):
+                return False if any(v is False for v in vs) else (None if any(v is None for v in vs) else True)
+            return True if any(v is True for v in vs) else (None if any(v is None for v in vs) else False)
+        return None
+
+    for e, t in facts:
+        v = ev(e)
+        if v is not None and v != t:
+            return True
+    return False
 
 
 CLAIM = {
